@@ -110,3 +110,13 @@ def segment_setup(t, this, task):
         if f in this.fields:
             this.fields[f].target = parent
     return this
+
+
+def optimizer_setup(t, this, task):
+    """an optimizer object whose built-in workspace pointer designates a Workspace object (prefix ws__) when non-null"""
+    from ctypes_ import TD
+    if this is None:
+        this = t.make_obj(TD('obj', cls='SplineOptimizer', cfg=task.cfg), '')
+    ws = t.make_obj(TD('obj', cls='SplineOptimizer::Workspace', cfg=task.cfg), 'ws__')
+    this.fields['internal_ws_'].target = ws
+    return this
